@@ -9,7 +9,7 @@
               | 3 k b1..bk = bytes | 4 k v1..vk = list / struct of k (nullable) children.
    Options are a group [nulls_first; descending]; an optional limit is an empty or one-element group. *)
 From Coq Require Import List ZArith NArith String Bool Arith.
-From AV Require Import Base.Codec Model.C10_Order Model.C10_Sort Model.C10_Rank Model.C10_Heap.
+From AV Require Import Base.Codec Model.C10_Order Model.C10_Sort Model.C10_Rank Model.C10_Heap Model.C10_Dict.
 Import ListNotations.
 Local Open Scope string_scope.
 
@@ -87,6 +87,15 @@ Definition d_sort_to_indices (a : args) : list (list Z) :=
   let x := parse_col (arg 2 a) in let nf := nf_of (arg 3 a) in let desc := desc_of (arg 3 a) in
   let out := sort_to_indices (V := val) isort iselect (m_value_cmp (arg 0 a)) (val_of x) x nf desc (optn (arg 4 a)) in
   [ zs_of_nats (canon (cmp_opts nf desc) x out) ].
+
+(* ---- sort_dictionary: [value type] [layout] [keys: -1 = null key, else index] [dictionary values column] [nf; desc] [limit?]
+        -> sort_to_indices of the Dictionary<Int32, _> array, canonical indices (first Equal logical row) *)
+Definition keys_of (g : list Z) : list (option nat) := map (fun z => if (z <? 0)%Z then None else Some (Z.to_nat z)) g.
+Definition d_sort_dictionary (a : args) : list (list Z) :=
+  let keys := keys_of (arg 2 a) in let values := parse_col (arg 3 a) in
+  let nf := nf_of (arg 4 a) in let desc := desc_of (arg 4 a) in
+  [ zs_of_nats (canon (cmp_opts nf desc) (dict_col keys values)
+                  (sort_dictionary isort iselect keys values nf desc (optn (arg 5 a)))) ].
 
 (* ---- sort (values): [type] [layout] [values] [nf; desc] [limit?] -> [n; tokens] of the sorted column *)
 Definition s_sort (a : args) : list (list Z) :=
@@ -192,6 +201,7 @@ Definition ops_C10 : list (string * opfun) :=
     ("c10.sort_check.spec", s_sort_check);
     ("c10.sort_to_indices", d_sort_to_indices);
     ("c10.sort.spec", s_sort);
+    ("c10.sort_dictionary", d_sort_dictionary);
     ("c10.lexsort_check.spec", s_lexsort_check);
     ("c10.lexsort_topk", d_lexsort_topk);
     ("c10.partial_sort_check.spec", s_partial_sort_check);
